@@ -6,6 +6,8 @@ import (
 
 	"pgregory.net/rapid"
 
+	"verifharness/refcrypto"
+
 	"verifharness/vk"
 )
 
@@ -65,14 +67,44 @@ func sizeClass(n int) string {
 
 // drawLen draws a length: with probability big/8 one of the large size classes (a switch point and an offset from the
 // menu, or any offset within 64 bytes, or any length between the switch point below and this one), otherwise what
-// small draws.
-func drawLen(rt *rapid.T, label string, big int, small *rapid.Generator[int]) int {
+// small draws. thresholds: the switch points to choose from.
+func drawLen(rt *rapid.T, label string, big int, thresholds []int, small *rapid.Generator[int]) int {
 	if rapid.IntRange(0, 7).Draw(rt, label+"SizeKind") < 8-big {
 		return small.Draw(rt, label)
 	}
-	T := rapid.SampledFrom(sizeThresholds).Draw(rt, label+"Near")
+	T := rapid.SampledFrom(thresholds).Draw(rt, label+"Near")
 	off := rapid.OneOf(rapid.SampledFrom(sizeOffsets), rapid.SampledFrom(sizeOffsets), rapid.IntRange(-64, 64), rapid.IntRange(-T/2, 0)).Draw(rt, label+"Off")
 	return T + off
+}
+
+// granularity is the unit the message of a successful call is a multiple of (the case generators round Len down to it).
+func granularity(o op, alg string) int {
+	if s, ok := refcrypto.Spec(alg); ok {
+		return s.PtMod
+	}
+	if o.Name == "aeskw.Wrap" || o.Name == "aeskw.Unwrap" {
+		return 8
+	}
+	return 1
+}
+
+// wholeUnits rounds the lengths down to multiples of g, adds the next multiple, and drops duplicates (for g > 1 the menu
+// becomes: the whole units at and around each switch point).
+func wholeUnits(menu []int, g int) []int {
+	if g <= 1 {
+		return menu
+	}
+	seen := map[int]bool{}
+	var out []int
+	for _, n := range menu {
+		for _, m := range []int{n - n%g, n - n%g + g} {
+			if !seen[m] {
+				seen[m] = true
+				out = append(out, m)
+			}
+		}
+	}
+	return out
 }
 
 // spare-capacity patterns of the size sweep: every argument with the full 64 bytes; every argument with exactly one
@@ -82,7 +114,9 @@ var sizeSpares = [][]int{{64}, {16}, {1, 16, 0, 64, 3, 9}, {1}}
 // TestSizeSweep: every function x algorithm x path whose message (or associated data) can have any length x that
 // length at every switch point of the menu (1 KiB .. 128 KiB) x offsets -17 .. +17 around it x spare-capacity patterns
 // x dst forms, in the isolated layout and - rotating over memory orders and capacity modes - with the arguments packed
-// into one caller buffer. Failure paths take a reduced offset list in the quick tier.
+// into one caller buffer. Quick tier: all nine offsets on the successful paths up to 16 KiB and -1, 0, +1, +16 above; failure paths -1, 0, +1, +16 up to
+// 16 KiB and 0, +1 above; associated data and the key-wrap algorithms -1, 0, +1; 64 bytes of spare capacity everywhere plus one of the other patterns in turn on
+// the successful paths; long associated data and the packed layouts on the successful paths.
 func TestSizeSweep(t *testing.T) {
 	sec := vk.Sec("SizeSweep")
 	idx := 0
@@ -109,19 +143,41 @@ func TestSizeSweep(t *testing.T) {
 					if (target == "message" && !o.sized(alg, mode)) || (target == "aad" && !o.Aad) {
 						continue
 					}
-					thr, offs := sizeThresholds, sizeOffsets
+					if target == "aad" && mi > 0 && o.sized(alg, mode) && !vk.Thorough() {
+						continue // quick tier: long associated data on the failure paths only where the message cannot be long (RSA labels)
+					}
+					// thorough tier: every offset at every switch point. Quick tier: offs up to 16 KiB, far from 32 KiB on (three quarters of the bytes of the sweep)
+					thr, offs, far := sizeThresholds, sizeOffsets, []int{-1, 0, 1, 16}
 					switch {
 					case o.Heavy && !o.sized(alg, mode): // RSA private-key operation (milliseconds) with a long label
-						thr, offs = vk.Pick([]int{4 << 10, 64 << 10}, sizeThresholds), vk.Pick([]int{1}, []int{-1, 0, 1})
+						thr, offs, far = vk.Pick([]int{4 << 10, 64 << 10}, sizeThresholds), []int{1}, []int{1}
 					case target == "aad":
-						offs = vk.Pick([]int{-1, 0, 1}, sizeOffsets)
+						offs, far = []int{-1, 0, 1}, []int{0, 1}
 					case mi > 0:
-						offs = vk.Pick([]int{-1, 0, 1, 16}, sizeOffsets)
+						offs, far = []int{-1, 0, 1, 16}, []int{0, 1}
+					case granularity(o, alg) == 8: // key wrap: six block encryptions per 8 bytes; the menu becomes the whole units T-8, T, T+8
+						offs, far = []int{-1, 0, 1}, []int{-1, 0, 1}
 					}
-					spares := vk.Pick(sizeSpares[:2], sizeSpares)
-					for _, n := range sizeMenu(thr, offs) {
-						for si, sp := range spares {
-							if target == "aad" && si > 0 && !vk.Thorough() {
+					var menu []int
+					for _, T := range thr {
+						switch {
+						case vk.Thorough() && o.Heavy && !o.sized(alg, mode):
+							menu = append(menu, sizeMenu([]int{T}, []int{-1, 0, 1})...)
+						case vk.Thorough():
+							menu = append(menu, sizeMenu([]int{T}, sizeOffsets)...)
+						case T <= 16<<10:
+							menu = append(menu, sizeMenu([]int{T}, offs)...)
+						default:
+							menu = append(menu, sizeMenu([]int{T}, far)...)
+						}
+					}
+					if target == "message" && mi == 0 {
+						menu = wholeUnits(menu, granularity(o, alg))
+					}
+					for _, n := range menu {
+						for si, sp := range sizeSpares {
+							// quick tier: 64 bytes behind every argument, and on the successful paths one of the other patterns in turn
+							if !vk.Thorough() && si > 0 && (target == "aad" || mi > 0 || si != 1+(idx/len(dsts))%3) {
 								continue
 							}
 							for _, d := range dsts {
@@ -135,7 +191,7 @@ func TestSizeSweep(t *testing.T) {
 								}
 								one(c)
 								// the same call with arguments sharing one buffer: the memory order and the capacity mode rotate
-								if ords != nil && (si == 0 || vk.Thorough()) {
+								if ords != nil && si == 0 && (mi == 0 || vk.Thorough()) {
 									c.Pack, c.Gap, c.Cap = ords[idx%len(ords)], layoutGaps[idx%len(layoutGaps)], capModes[idx%len(capModes)]
 									c.Spare = sizeSpares[2]
 									one(c)
@@ -145,6 +201,14 @@ func TestSizeSweep(t *testing.T) {
 					}
 				}
 			}
+		}
+	}
+}
+
+func TestExpandIsVkExpand(t *testing.T) {
+	for n := 0; n < 70; n++ {
+		if a, b := expand(uint64(n)*77+1, n), vk.Expand(uint64(n)*77+1, n); string(a) != string(b) || cap(a) != n {
+			t.Fatalf("harness: expand(%d) differs from vk.Expand", n)
 		}
 	}
 }
